@@ -1,6 +1,7 @@
 import FteikVerif.Generated.KList2
 import FteikVerif.Generated.KList3
 import FteikVerif.Proofs.GenSolver
+import FteikVerif.Proofs.GenLemmas
 /-!
 # Tie C for the list ("vectorized") solvers: a list call is the map of the single calls
 
@@ -18,17 +19,6 @@ namespace Fteik
 open Scalar
 
 variable {α : Type} [Scalar α]
-
-/-- `range(n)` (local copy: this file must not depend on the operator-formula equivalences) -/
-theorem pyRange_zero_list (n : Nat) : pyRange 0 (n : Int) 1 = (List.range n).map Int.ofNat := by
-  unfold pyRange
-  simp only [show (1:Int) > 0 by decide, if_true]
-  have : ((n : Int) - 0 + 1 - 1) / 1 = (n : Int) := by omega
-  rw [this, Int.toNat_natCast]
-  apply List.map_congr_left
-  intro k _
-  simp only [Int.ofNat_eq_natCast]
-  omega
 
 /-- a step of the loop `for i in range(n): out[i] = f(i)` over three output buffers: it fails as `f i` fails, else it
 stores the three results into slot `i` -/
